@@ -21,3 +21,18 @@ func (s *Service) VerifC37JoinGroup(gid boson.Address, msgSub bool) {
 
 // VerifC37GroupCount returns the number of group objects.
 func (s *Service) VerifC37GroupCount() int { return len(s.getGroupAll()) }
+
+// VerifC37GroupsWithPeers returns the gids of the groups that have a connected or kept member,
+// split as getCloserKnownGID / getCloserSelfGID see them (not joined / joined).
+func (s *Service) VerifC37GroupsWithPeers() (known, joined [][]byte) {
+	for _, g := range s.getGroupAll() {
+		if g.connectedPeers.Length() > 0 || g.keepPeers.Length() > 0 {
+			if g.option.GType != model.GTypeJoin {
+				known = append(known, g.gid.Bytes())
+			} else {
+				joined = append(joined, g.gid.Bytes())
+			}
+		}
+	}
+	return
+}
